@@ -148,6 +148,8 @@ type FuncVerifier struct {
 	regionInit map[types.Object]string
 	siteOcc map[string]int
 	pendingAsserts []string
+	letVars        map[string]*types.Var // ghost snapshots bound by let directives
+	stmtSites      map[ast.Stmt]string   // statements addressed by let directives (key = structural path, e.g. if#1)
 }
 
 type inputVar struct {
